@@ -272,16 +272,33 @@ def callCirc (g : Cfg) (circSeq : List Char) (vs : List Var) (deny : List Pep) :
     !deny.contains p && !g.canonical.contains p
 
 /-- NOT the definition — used only to classify a discrepancy: the set obtained when each of
-the (three) passes around the circle may carry its own combination of the records, which is
+the (four) passes around the circle may carry its own combination of the records, which is
 what a graph with independent bubbles per copy yields -/
 def callCircMixed (g : Cfg) (circSeq : List Char) (vs : List Var) (deny : List Pep) : List Pep :=
   let tU : TxIn := { seq := circSeq, coding := false, orfStart := 0, orfEnd := 0, startNF := false,
                      endNF := false, sec := [] }
   let t : TxIn := { tU with endNF := true }
   let copies := ([] :: haplotypes tU vs).map (applyHap circSeq)
-  (copies.flatMap fun a => copies.flatMap fun b => copies.flatMap fun c =>
-      peptidesOf { g with sect := false } t (a ++ b ++ c) [] true).filter fun p =>
+  (copies.flatMap fun a => copies.flatMap fun b => copies.flatMap fun c => copies.flatMap fun d =>
+      peptidesOf { g with sect := false } t (a ++ b ++ c ++ d) [] true).filter fun p =>
     !deny.contains p && !g.canonical.contains p
+
+/-- NOT the definition — classification only: like `callCircMixed`, but the passes may differ
+only in records that keep the reading frame (length change divisible by three); frameshifting
+records are carried by all passes or by none -/
+def callCircMixedInFrame (g : Cfg) (circSeq : List Char) (vs : List Var) (deny : List Pep) : List Pep :=
+  let tU : TxIn := { seq := circSeq, coding := false, orfStart := 0, orfEnd := 0, startNF := false,
+                     endNF := false, sec := [] }
+  let t : TxIn := { tU with endNF := true }
+  let isFs (v : Var) : Bool := ((v.alt.length : Int) - (v.ref.length : Int)) % 3 != 0
+  let haps := [] :: haplotypes tU vs
+  (haps.flatMap fun ha =>
+    let same := haps.filter fun h => (h.filter isFs) == (ha.filter isFs)
+    let a := applyHap circSeq ha
+    same.flatMap fun hb => same.flatMap fun hc => same.flatMap fun hd =>
+      peptidesOf { g with sect := false } t
+        (a ++ applyHap circSeq hb ++ applyHap circSeq hc ++ applyHap circSeq hd) [] true).filter
+    fun p => !deny.contains p && !g.canonical.contains p
 
 /-- ascending, non-overlapping; adjacency only between two records of one merge class and
 never three in a row (what the merged pairs of `haplotypes` allow) -/
